@@ -141,6 +141,9 @@ def features():
         {'name': 'OptSwitchData', 'body': [F('id', 'char'), F('n', 'char', optional='true'), SW('n', CASE('1', F('q', 'char', optional='true')), CASE(None, F('z', 'short', optional='true'), default=True))]},
         {'name': 'OptSwitchEnumData', 'body': [F('k', 'Kind', optional='true'), SW('k', CASE('B'), CASE(None, F('z', 'short', optional='true'), default=True))]},
         # a chunked section that holds only struct-typed members (their strings are sanitised all the same)
+        # a chunked section holding nothing but FIXED-SIZE structs made of fixed-length strings: sanitised all the same
+        {'name': 'Tag3', 'body': [F('t', 'string', length='3'), F('n', 'char')]},
+        {'name': 'ChunkOfFixed', 'body': [F('id', 'char'), CH(F('tag', 'Tag3'), A('tags', 'Tag3', length='2'), F('m', 'char')), F('after', 'string', length='2')]},
         {'name': 'ChunkOfStructs', 'body': [F('id', 'char'), CH(F('n', 'Named'), F('p', 'PadEnc'), A('ps', 'Named', length='2')), F('after', 'string', length='2')]},
         # struct-typed fields whose class has no named field at all
         {'name': 'Magic', 'body': [F(None, 'string', 'EO', length='2'), F(None, 'char', '9')]},
